@@ -11,7 +11,7 @@ LOG=$D/confirm.log
 : > "$LOG"
 git -C /repo worktree remove --force "$W" >/dev/null 2>&1
 rm -rf "$W"
-git -C /repo worktree add --detach "$W" HEAD >>"$LOG" 2>&1 || { echo "$N worktree-failed"; exit 2; }
+git -C /repo worktree add --detach "$W" ${CONFIRM_BASE:-HEAD} >>"$LOG" 2>&1 || { echo "$N worktree-failed"; exit 2; }
 cleanup() { git -C /repo worktree remove --force "$W" >/dev/null 2>&1; rm -rf "$W"; }
 trap cleanup EXIT
 DEMO=$(ls "$D"/demo*.sh | head -1)
@@ -23,5 +23,5 @@ sh "$DEMO" "$W" "$W/_build" >>"$LOG" 2>&1; rc1=$?
 ( cd "$W" && git checkout -- . ) >>"$LOG" 2>&1
 cmake --build "$W/_build" -j8 >>"$LOG" 2>&1 || { echo "$N build-failed-without-patch"; exit 1; }
 sh "$DEMO" "$W" "$W/_build" >>"$LOG" 2>&1; rc0=$?
-echo "$N $res demo_with_patch=$rc1 demo_without_patch=$rc0 base=$(git -C /repo rev-parse --short HEAD)" | tee -a "$LOG"
+echo "$N $res demo_with_patch=$rc1 demo_without_patch=$rc0 base=$(git -C /repo rev-parse --short ${CONFIRM_BASE:-HEAD})" | tee -a "$LOG"
 [ $rc1 -ne 0 ] && [ $rc0 -eq 0 ]
